@@ -16,7 +16,7 @@ pub fn meta() -> CheckMeta {
     CheckMeta {
         id: "C06",
         level: "fault_enumeration",
-        rule: "(1) builder sequences: alphabet of 17 builder calls (with_tolerance{+,0,-}, with_maximum_dt{0.25,0.5,0,-1}, with_minimum_dt{0.125,1.0,0,-0.5}, with_initial_time{0,10}, with_ending_time{0,10}, with_initial_conditions, with_derivative); ALL sequences up to length 4 (quick) / 5 (thorough), each alone and with two completing suffixes, for all 7 builders on a static dimension, and all sequences up to length 3 on a dynamic dimension; every call's outcome is compared with a reference model of the contract, complete configurations must build and their first step on y'=0 must equal the model's (dt_min+dt_max)/2 (Euler: the averaged dt). (2) faults: for every solver and problem a reference run counts N derivative calls, then for EVERY k = 1..N the derivative fails at call k with Boom(k): history must be Ok*, exactly one Err carrying Boom(k), then None on 5 further next() calls with no further derivative call; collect_vec must return that error. Non-trivial: a sequence containing an invalid value or a min/max pair in coupling order, and every distinct (solver, problem, k); distinct = hash of the sequence / fault point".into(),
+        rule: "(1) builder sequences: alphabet of 18 builder calls (with_tolerance{+,0,-}, with_maximum_dt{0.25,0.5,0,-1}, with_minimum_dt{0.125,1.0,0,-0.5}, with_initial_time{0,10}, with_ending_time{0,10}, with_initial_conditions{[1.0],[-2.5]}, with_derivative); ALL sequences up to length 4 (quick) / 5 (thorough), each alone and with two completing suffixes, for all 7 builders on a static dimension, and all sequences up to length 3 on a dynamic dimension; every call's outcome is compared with a reference model of the contract, complete configurations must build and their first item on y'=0 must carry the initial condition set last and lie at the model's (dt_min+dt_max)/2 from t0 (Euler: the averaged dt). (2) faults: for every solver and problem a reference run counts N derivative calls, then for EVERY k = 1..N the derivative fails at call k with Boom(k): history must be Ok*, exactly one Err carrying Boom(k), then None on 5 further next() calls with no further derivative call; collect_vec must return that error. Non-trivial: a sequence containing an invalid value or a min/max pair in coupling order, and every distinct (solver, problem, k); distinct = hash of the sequence / fault point".into(),
         assumptions: vec![
             "Euler::with_tolerance is documented 'unused, no-op': for a non-positive tolerance the model accepts Ok or Err(ToleranceOOB), never a panic".into(),
             "only the first yielded item of the y'=0 probe solve is inspected (gaps/end time are C01's statement, at-rest failures C05's)".into(),
@@ -35,11 +35,11 @@ enum Sym {
     Min(f64),
     T0(f64),
     T1(f64),
-    Ic,
+    Ic(f64),
     Der,
 }
 
-const ALPHABET: [Sym; 17] = [
+const ALPHABET: [Sym; 18] = [
     Sym::Tol(1e-3),
     Sym::Tol(0.0),
     Sym::Tol(-1.0),
@@ -55,7 +55,8 @@ const ALPHABET: [Sym; 17] = [
     Sym::T0(10.0),
     Sym::T1(0.0),
     Sym::T1(10.0),
-    Sym::Ic,
+    Sym::Ic(1.0),
+    Sym::Ic(-2.5),
     Sym::Der,
 ];
 
@@ -66,7 +67,7 @@ fn sym_name(s: Sym) -> String {
         Sym::Min(v) => format!("with_minimum_dt({})", v),
         Sym::T0(v) => format!("with_initial_time({})", v),
         Sym::T1(v) => format!("with_ending_time({})", v),
-        Sym::Ic => "with_initial_conditions_slice([1.0])".into(),
+        Sym::Ic(v) => format!("with_initial_conditions_slice([{}])", v),
         Sym::Der => "with_derivative(zero)".into(),
     }
 }
@@ -103,7 +104,7 @@ struct Model {
     min: Option<f64>,
     t0: Option<f64>,
     t1: Option<f64>,
-    ic: bool,
+    ic: Option<f64>,
     der: bool,
     euler: bool,
     dt: Option<f64>,
@@ -192,8 +193,9 @@ impl Model {
                 }
                 vec![Out::Ok]
             }
-            Sym::Ic => {
-                self.ic = true;
+            Sym::Ic(v) => {
+                // "should reset any previous values": the last call wins
+                self.ic = Some(v);
                 vec![Out::Ok]
             }
             Sym::Der => {
@@ -203,7 +205,7 @@ impl Model {
         }
     }
     fn complete(&self) -> bool {
-        self.t0.is_some() && self.t1.is_some() && self.ic && self.der && if self.euler { self.dt.is_some() } else { self.tol.is_some() && self.max.is_some() && self.min.is_some() }
+        self.t0.is_some() && self.t1.is_some() && self.ic.is_some() && self.der && if self.euler { self.dt.is_some() } else { self.tol.is_some() && self.max.is_some() && self.min.is_some() }
     }
 }
 
@@ -248,7 +250,7 @@ where
             Sym::Min(v) => b.with_minimum_dt(v),
             Sym::T0(v) => b.with_initial_time(v),
             Sym::T1(v) => b.with_ending_time(v),
-            Sym::Ic => b.with_initial_conditions_slice(&[1.0]),
+            Sym::Ic(v) => b.with_initial_conditions_slice(&[v]),
             Sym::Der => Ok(b.with_derivative(der)),
         });
         let (out, nb) = match r {
@@ -299,8 +301,11 @@ where
             if euler {
                 let dt = model.dt.unwrap();
                 match (a, b2) {
-                    (Some(Ok((ta, _))), Some(Ok((tb, _)))) => {
+                    (Some(Ok((ta, ya))), Some(Ok((tb, _)))) => {
                         st.first_step_checked += 1;
+                        if ya.len() != 1 || ya[0] != model.ic.unwrap() {
+                            return Err(("initial-conditions".into(), format!("Euler: first item carries state {:?}, the last with_initial_conditions call set {}", ya.as_slice(), model.ic.unwrap())));
+                        }
                         if ta != t0 || ((tb - ta) - dt.min(t1 - t0)).abs() > 1e-12 {
                             return Err(("effective-step".into(), format!("Euler: first items at {} and {}: step {} but the contract gives dt = {}", ta, tb, tb - ta, dt)));
                         }
@@ -311,8 +316,12 @@ where
                 let (mn, mx) = (model.min.unwrap(), model.max.unwrap());
                 let dt0 = (mn + mx) / 2.0;
                 match a {
-                    Some(Ok((ta, _))) => {
+                    Some(Ok((ta, ya))) => {
                         st.first_step_checked += 1;
+                        // y' = 0: every yielded state equals the initial condition that was set last
+                        if ya.len() != 1 || ya[0] != model.ic.unwrap() {
+                            return Err(("initial-conditions".into(), format!("first item carries state {:?}, the last with_initial_conditions call set {}", ya.as_slice(), model.ic.unwrap())));
+                        }
                         // alphabet: t0 = 0, t1 = 10, dt0 <= 1 : no clipping, no shortened start-up
                         if !((ta - t0 - dt0).abs() <= 1e-12) {
                             return Err((
@@ -361,8 +370,8 @@ fn drive_solver(solver: Solver, dynamic: bool, seq: &[Sym], st: &mut SeqStats) -
 
 const SUFFIXES: [&[Sym]; 3] = [
     &[],
-    &[Sym::Tol(1e-3), Sym::Ic, Sym::Der],
-    &[Sym::T0(0.0), Sym::T1(10.0), Sym::Ic, Sym::Der, Sym::Tol(1e-3)],
+    &[Sym::Tol(1e-3), Sym::Ic(1.0), Sym::Der],
+    &[Sym::T0(0.0), Sym::T1(10.0), Sym::Ic(1.0), Sym::Der, Sym::Tol(1e-3)],
 ];
 
 fn run_sequence(rep: &mut Report, solver: Solver, dynamic: bool, idx: &[usize], st: &mut SeqStats) {
@@ -595,7 +604,7 @@ pub fn stages(ctx: &Ctx) -> Vec<Stage> {
 
 pub fn thresholds(ctx: &Ctx, rep: &Report) -> Vec<Threshold> {
     let mut t = vec![];
-    let per_builder = if ctx.tier == Tier::Quick { 250_000.0 } else { 4_000_000.0 };
+    let per_builder = if ctx.tier == Tier::Quick { 300_000.0 } else { 5_000_000.0 };
     for s in Solver::ALL {
         t.push(Threshold { what: format!("{}: builder sequences driven (static)", s.name()), required: per_builder, observed: rep.counter(&format!("{}/sequence_runs", s.name())) as f64 });
         t.push(Threshold { what: format!("{}: complete configurations whose first step was observed", s.name()), required: 100.0, observed: rep.counter(&format!("{}/first_step_observed", s.name())) as f64 });
